@@ -306,6 +306,64 @@ func TestVerifC08Update(t *testing.T) {
 			if r.Bool() && len(snap) > 1 { // a removal making room
 				batch = append(batch, &Validator{Address: snap[len(snap)-1].Address, VotingPower: 0})
 			}
+		case d == 5 || d == 6:
+			// tiny powers, a few elections, then the heaviest validator leaves (or shrinks to 1):
+			// the total drops, the priority window (2 * total) is a small number, and the spread
+			// of the priorities is often an exact multiple of it — the boundary of the rescaling
+			// ratio (ceiling division)
+			kind = "tiny-powers-heavy-leaves"
+			for attempt := 0; attempt < 40; attempt++ {
+				nv := 2 + r.Intn(3)
+				var vals []*Validator
+				heavy, hp := 0, int64(0)
+				for i := 0; i < nv; i++ {
+					pw := 1 + r.Int63n(3)
+					if i == nv-1 || r.Chance(25) {
+						pw = 4 + r.Int63n(9)
+					}
+					if pw > hp {
+						heavy, hp = i, pw
+					}
+					vals = append(vals, &Validator{Address: pool[i%len(pool)], VotingPower: pw})
+				}
+				tiny := NewValidatorSet(vals)
+				for i := r.Intn(7); i > 0; i-- {
+					tiny.IncrementProposerPriority(1)
+				}
+				snap = c08Copy(tiny.Validators)
+				np := int64(0)
+				if r.Chance(30) {
+					np = 1
+				}
+				batch = []*Validator{{Address: vals[heavy].Address, VotingPower: np}}
+				// spread of the priorities that survive against the new window 2 * P'
+				var lo, hi, newTotal int64
+				first := true
+				for _, v := range snap {
+					pw := v.VotingPower
+					if string(v.Address) == string(vals[heavy].Address) {
+						pw = np
+					}
+					if pw == 0 {
+						continue
+					}
+					newTotal += pw
+					if first || v.ProposerPriority < lo {
+						lo = v.ProposerPriority
+					}
+					if first || v.ProposerPriority > hi {
+						hi = v.ProposerPriority
+					}
+					first = false
+				}
+				if w := 2 * newTotal; w > 0 && hi-lo > w && (hi-lo)%w == 0 {
+					kind = "tiny-powers-heavy-leaves/spread-multiple-of-window"
+					break
+				}
+				if attempt >= 20 && r.Chance(30) {
+					break
+				}
+			}
 		case d <= 9:
 			kind = "hostile"
 			batch = c08Batch(r, pool, snap, true)
